@@ -24,6 +24,7 @@ from automata.regex import parser as rxparser
 from automata.regex.postfix import tokens_to_postfix, validate_tokens
 
 from harness import rx_common as R
+from harness import rx_sequences as S
 from harness.common import Ctx, InfraError, Toks, call, toks
 
 LEVEL = "proof"
@@ -173,9 +174,23 @@ def property_on_real(nfa, e, sigma: Sequence[str], n: Optional[int] = None, ctx:
     return brute
 
 
+# Every call into the regex code made by check_case in this process, in order, as replayable steps (see
+# harness/rx_sequences.py): if a failing case turns out to depend on the calls made before it, they are its replay.
+CALLS: list = []
+
+
+def fail_case(ctx: Ctx, what: str, replay_dict: dict):
+    n = len(ctx.prop_fails)
+    ctx.prop_fail(what, replay_dict, None)
+    if len(ctx.prop_fails) > n:
+        ctx.prop_fails[-1]["_calls"] = len(CALLS)       # the log up to and including this case's from_regex call
+
+
 def check_case(ctx: Ctx, s: str, sigma, e, origin: str, style: str = "raw"):
     """One (string, alphabet[, AST]) case: stages, compile, property."""
     sig = None if sigma is None else frozenset(sigma)
+    judged = e if (e is not None and (sig is None or R.lits_of(e) <= sig)) else None
+    CALLS.append(dict(op="compile", re=s, input_symbols=None if sig is None else sorted(sig), valid=None, ast=judged))
     real = call(lambda: NFA.from_regex(s, input_symbols=sig))
     ctx.stat(origin)
     ctx.stat("style_" + style)
@@ -195,7 +210,7 @@ def check_case(ctx: Ctx, s: str, sigma, e, origin: str, style: str = "raw"):
         ctx.stat(f"depth_{R.depth(e)}")
         if in_domain:
             if real[0] == "err":
-                ctx.prop_fail(f"valid expression {s!r} does not compile: {real[1]}", dict(case, kind="compile"), None)
+                fail_case(ctx, f"valid expression {s!r} does not compile: {real[1]}", dict(case, kind="compile"))
                 failed = True
             else:
                 bad = property_on_real(real[1], e, eff_sigma, ctx=ctx)
@@ -205,10 +220,11 @@ def check_case(ctx: Ctx, s: str, sigma, e, origin: str, style: str = "raw"):
                     nontrivial = (s, tuple(eff_sigma))
                 if bad is not None:
                     w, verdict = bad
-                    ctx.prop_fail(
+                    fail_case(
+                        ctx,
                         f"NFA.from_regex({s!r}, input_symbols={eff_sigma}) {'rejects' if verdict else 'accepts'} {w!r} "
                         f"but the expression {'denotes' if verdict else 'does not denote'} it",
-                        dict(case, kind="language", word=w, denoted=verdict), None)
+                        dict(case, kind="language", word=w, denoted=verdict))
                     failed = True
         else:
             ctx.stat("literal_outside_alphabet")
@@ -219,12 +235,22 @@ def check_case(ctx: Ctx, s: str, sigma, e, origin: str, style: str = "raw"):
         ns = len(real[1].states)
         ctx.stat("states_le5" if ns <= 5 else ("states_le20" if ns <= 20 else "states_gt20"))
     # --- correspondence: stages
-    so = stage_observe(s, sig if sig is not None else frozenset(s) - rxparser.RESERVED_CHARACTERS)
+    stage_sigma = sig if sig is not None else frozenset(s) - rxparser.RESERVED_CHARACTERS
+    CALLS.append(dict(op="stages", re=s, input_symbols=sorted(stage_sigma)))
+    so = stage_observe(s, stage_sigma)
     sm = stage_model(ctx, s)
     so_c = {k: (v if not (isinstance(v, tuple) and v[0] == "ok" and v[1] is None) else ("ok", None)) for k, v in so.items()}
     if so_c != sm and not failed:
         ctx.corr_diff("RX_POSTFIX", case, so_c, sm)
     # --- correspondence: compiled NFA
+    compare_compiled(ctx, case, s, sigma, real, failed)
+    if ctx.evaluations % 1499 == 7:
+        ctx.sample(dict(regex=s, alphabet=eff_sigma, ast=repr(e), states=(len(real[1].states) if real[0] == "ok" else real[1]),
+                        postfix=so.get("postfix")))
+
+
+def compare_compiled(ctx: Ctx, case: dict, s: str, sigma, real, failed: bool):
+    """RX_COMPILE: the real result of from_regex against the model's (exception class, or isomorphism + names)."""
     mod = model_compile(ctx, s, None if sigma is None else list(sigma))
     if real[0] == "err" or mod[0] == "err":
         same = real[0] == mod[0] and real[1] == mod[1]
@@ -238,9 +264,6 @@ def check_case(ctx: Ctx, s: str, sigma, e, origin: str, style: str = "raw"):
         ctx.corr_diff("RX_COMPILE", case,
                       real[1] if real[0] == "err" else repr(real[1])[:600],
                       mod[1] if mod[0] == "err" else json.dumps(mod[1], default=sorted)[:600])
-    if ctx.evaluations % 1499 == 7:
-        ctx.sample(dict(regex=s, alphabet=eff_sigma, ast=repr(e), states=(len(real[1].states) if real[0] == "ok" else real[1]),
-                        postfix=so.get("postfix")))
 
 
 STYLES = ("min", "full", "blank")
@@ -273,8 +296,142 @@ def final_notes(ctx: Ctx):
                  f"reader against the derivative oracle only (third oracle skipped)")
 
 
-def run(ctx: Ctx):
+def _language(nfa, e, sig):
+    return property_on_real(nfa, e, sig)
+
+
+def _stages_step(st: dict):
+    stage_observe(st["re"], frozenset(st["input_symbols"]))
+
+
+def judge_program_json(text: str):
+    """Entry point of the fresh-interpreter confirmation and of `replay`: run a recorded program of calls through the
+    real library; every from_regex step that carries an AST is judged by the two language oracles."""
+    try:
+        return S.judge_steps(json.loads(text), language=_language, extra_ops={"stages": _stages_step})
+    except S.Skip:
+        return []
+
+
+def fresh_alphabet_sequences(ctx: Ctx):
+    """Round 3: short programs of calls — validate / a small compile / a call that raises, then from_regex (explicit
+    or default alphabet), possibly again / over a larger alphabet / a second expression — each over an alphabet NO
+    earlier call of this process has touched, `()` in most expressions (harness/rx_sequences.py).  Must run before
+    every other family.  Every compiled NFA is judged by the brute-force and the derivative oracle of its own AST;
+    afterwards the NFA of each compile step is compared with the model's (RX_COMPILE: isomorphism and state names —
+    the names come from a counter that every call starts at 0)."""
     rng = ctx.rng
+    used: set = set()
+    history: list = []
+    failing: list = []
+    for _ in range(ctx.budget(700, 12000)):
+        prog = S.gen_program(rng, used, "compile", _rewrite)
+        if prog is None:
+            ctx.stat("seq_no_fresh_alphabet")
+            continue
+        steps = prog["steps"]
+        used.update(S.touched_alphabets(steps))
+        n_before = len(history)
+        history.extend(S.clean(steps))
+        bad = S.judge_steps(steps, language=_language)
+        ctx.stat("sequence")
+        ctx.stat(f"seq_steps_{len(steps)}")
+        ctx.stat(f"seq_alphabet_size_{min(len(prog['sigma']), 6)}")
+        for tg in prog["tags"]:
+            ctx.stat("seq_" + tg)
+        ctx.case(json.dumps(S.clean(steps), sort_keys=True) if len(steps) >= 2 else None)
+        if bad:
+            ctx.stat("seq_failing_program")
+            failing.append((prog, bad, n_before))
+            continue
+        for st in steps:
+            if st["op"] == "compile" and "_nfa" in st:
+                compare_compiled(ctx, dict(regex=st["re"], input_symbols=st["input_symbols"], origin="sequence"),
+                                 st["re"], st["input_symbols"], ("ok", st["_nfa"]), False)
+        if ctx.evaluations % 97 == 5:
+            ctx.sample(dict(sequence=S.clean(steps)))
+    S.report_failing(ctx, "C10", failing, history)
+
+
+def _rewrite(rng, e):
+    """A second expression for the programs (C10 judges every expression on its own; any AST will do)."""
+    r = rng.random()
+    if r < 0.3:
+        return ("alt", e, ("eps",))
+    if r < 0.5:
+        return ("opt", e)
+    if r < 0.7:
+        return ("cat", ("eps",), e)
+    return ("star", e)
+
+
+def settle_replays(ctx: Ctx):
+    """run.py prints the failure whose replay is shortest.  A single-case replay ({regex, alphabet}) only stands on
+    its own if the case also fails as the FIRST call of a fresh interpreter; otherwise the failure depends on calls
+    made before it, and its replay becomes the recorded calls (those over the same alphabet if that suffices, else
+    all of them) followed by the case."""
+    def size(f):
+        return len(json.dumps(f["replay"], default=repr))
+
+    def as_step(rp):
+        return dict(op="compile", re=rp["regex"], input_symbols=rp.get("input_symbols"), valid=None, ast=rp.get("ast"))
+
+    def with_history(f, confirm: bool):
+        rp = f["replay"]
+        log = CALLS[:max(f.get("_calls", len(CALLS) + 1) - 1, 0)]
+        key = S.touched_alphabets([as_step(rp)])[0]
+        same = [c for c in log if S.touched_alphabets([c])[0] == key]
+        chosen = None
+        for cand in ([same, log] if confirm else [same]):
+            steps = cand + [as_step(rp)]
+            if not confirm or S.confirm_fresh("C10", steps) is True:
+                chosen = steps
+                break
+        f["settled"] = True
+        if chosen is None:
+            chosen = log + [as_step(rp)]
+            f["what"] += " (observed in this run; NOT reproduced in a fresh interpreter from the recorded calls)"
+            ctx.stat("history_failure_not_reproduced_fresh")
+        else:
+            f["what"] = f"after {len(chosen) - 1} earlier call(s) of this run over the same alphabet: " + f["what"]
+        f["replay"] = dict(kind="sequence", steps=S.R_json(chosen), failing_step=len(chosen) - 1,
+                           detail={k: rp[k] for k in ("word", "denoted") if k in rp})
+
+    history_dependent = 0
+    for _ in range(8):
+        cands = [f for f in ctx.prop_fails if f["key"] is None]
+        if not cands:
+            return
+        f = min(cands, key=size)
+        if f.get("settled") or f["replay"].get("kind") == "sequence":
+            return
+        if S.confirm_fresh("C10", [as_step(f["replay"])]) is True:
+            f["settled"] = True
+            return
+        ctx.stat("failure_depends_on_call_history")
+        history_dependent += 1
+        with_history(f, confirm=True)
+        if history_dependent >= 2:
+            # the run's failures depend on the call history: give every remaining single case its history (unconfirmed)
+            for g in ctx.prop_fails:
+                if g["key"] is None and not g.get("settled") and g["replay"].get("kind") != "sequence":
+                    with_history(g, confirm=False)
+            ctx.note("failing cases of this run do not fail as the first call of a fresh interpreter: they depend on the "
+                     "calls made before them; their replays are the recorded calls over the same alphabet + the case")
+            return
+
+
+def run(ctx: Ctx):
+    try:
+        run_families(ctx)
+    finally:
+        settle_replays(ctx)
+
+
+def run_families(ctx: Ctx):
+    rng = ctx.rng
+    # 0. call sequences over fresh alphabets — FIRST, while no alphabet has been used in this process
+    fresh_alphabet_sequences(ctx)
     # 1. corpus
     for e, sigma in CORPUS:
         for st in STYLES:
@@ -356,6 +513,7 @@ def search(ctx: Ctx):
             w, verdict = bad
             ctx.prop_fail(f"NFA.from_regex({s!r}) {'rejects' if verdict else 'accepts'} {w!r} against the denotation",
                           dict(regex=s, input_symbols=sorted(alpha), ast=e, kind="language", word=w, denoted=verdict), None)
+    settle_replays(ctx)
 
 
 def to_ast(x):
@@ -365,8 +523,12 @@ def to_ast(x):
 def replay(ctx: Ctx, path: str) -> int:
     data = json.load(open(path))
     rp = data.get("replay", data)
-    e = to_ast(rp.get("ast")) if rp.get("ast") is not None else None
-    check_case(ctx, rp["regex"], rp.get("input_symbols"), e, "replay")
+    if rp.get("kind") == "sequence":
+        for i, what, _detail in judge_program_json(json.dumps(rp["steps"])):
+            ctx.prop_fail(f"after {S.describe(rp['steps'], i) if i <= 4 else str(i) + ' earlier calls'}: {what}", rp, None)
+    else:
+        e = to_ast(rp.get("ast")) if rp.get("ast") is not None else None
+        check_case(ctx, rp["regex"], rp.get("input_symbols"), e, "replay")
     if ctx.prop_fails:
         print(f"VIOLATION property=C10 replay={path}")
         print("  " + ctx.prop_fails[0]["what"])
